@@ -22,6 +22,8 @@ DECIDED_MORE = ('Also: per-request __init__ and the other methods of the long-li
 DECIDED = DECIDED + ' ' + DECIDED_MORE
 DECIDED_R6 = ('Round 6: class-level containers handed out and default-argument objects outlive the request; the applied response jar becomes the live jar only when it holds cookies.')
 DECIDED = DECIDED + ' ' + DECIDED_R6
+DECIDED_R7 = ('Round 7: no mutator call on a caught / received response object.')
+DECIDED = DECIDED + ' ' + DECIDED_R7
 NOT_DECIDED = ('equality of each response with the fresh-application response over all histories; liveness counts at run time '
                '(only the structural retention paths above).')
 ASSUMPTIONS = ['request.__init__ / response.__init__ themselves do not raise', 'user handlers are outside the claim']
